@@ -17,6 +17,9 @@ def gen(x):
         w.append("def link_cc_%s : Nat := %d  -- FOURCC(\"%s\")" % (c.strip(), int.from_bytes(c.encode(), "big"), c))
     m = x.need(re.search(r'group_str\s*=\s*"(\w+)"', add), "mdsdrv.cpp:add_song default group")
     w.append("def link_defaultGroup : List Nat := [%s]  -- \"%s\"" % (", ".join(str(b) for b in m.group(1).encode()), m.group(1)))
+    # the model indexes the sample headers with the full result of add_sample (fix 8d3c42d: no uint16_t in between)
+    x.need(re.search(r"unsigned int\s+(\w+)\s*=\s*wave_rom\.add_sample\(.*?get_sample_headers\(\)\.at\(\1\)", add, flags=re.S),
+           "mdsdrv.cpp:add_song sample index kept in an unsigned int")
     m = x.need(re.search(r"std::vector<uint8_t> MDSDRV_Linker::get_seq_data\(\).*?\n\}\n", md, flags=re.S), "mdsdrv.cpp:get_seq_data")
     gs = m.group(0)
     m = x.need(re.search(r"header_size\s*=\s*(\d+)\s*\+\s*get_seq_count\(\)\s*\*\s*(\d+)", gs), "mdsdrv.cpp:get_seq_data header size")
